@@ -367,7 +367,7 @@ func FP(c *Case) uint64 {
 var names = kit.BuiltinNames()
 
 func genBad(t *rapid.T, C, cp int) (int, int) {
-	ext := []int{math.MinInt, math.MaxInt, 1 << 62, -(1 << 62), 1 << 61, -(1 << 61), math.MinInt + 1, math.MaxInt - 1}
+	ext := []int{math.MinInt, math.MaxInt, math.MaxInt/2 + 1, -(math.MaxInt/2 + 1), math.MaxInt/4 + 1, -(math.MaxInt/4 + 1), math.MinInt + 1, math.MaxInt - 1}
 	for k := 1; k <= 4; k++ {
 		ext = append(ext, (math.MaxInt/C+1)*k, -(math.MaxInt/C+1)*k, (math.MaxInt/C+1)*k+1, (math.MaxInt/C+1)*k+cp)
 	}
